@@ -62,6 +62,27 @@ class OutOfDomain(Exception):
     pass
 
 
+# the failure of a user's function may be of any type: the ones arithmetic raises by itself in turn, so that a writer
+# which catches (and survives) one of them is seen
+class InjectedZeroDivision(Injected, ZeroDivisionError):
+    pass
+
+
+class InjectedOverflow(Injected, OverflowError):
+    pass
+
+
+class InjectedValue(Injected, ValueError):
+    pass
+
+
+class InjectedType(Injected, TypeError):
+    pass
+
+
+INJECTED_TYPES = [Injected, InjectedZeroDivision, InjectedOverflow, InjectedValue, InjectedType]
+
+
 class Counter(object):
     def __init__(self, fail_at=None):
         self.n = 0
@@ -73,7 +94,7 @@ class Counter(object):
             self.n += 1
             self.kinds.append(kind)
             if self.fail_at is not None and self.n == self.fail_at:
-                raise Injected("injected failure at evaluation %d (%s)" % (self.n, kind))
+                raise INJECTED_TYPES[self.n % len(INJECTED_TYPES)]("injected failure at evaluation %d (%s)" % (self.n, kind))
             return f(x)
         return g
 
